@@ -59,11 +59,19 @@ class JinjaAI:
             self._scan(c)
 
     def tested_variables(self):
-        """Names that occur in `is defined` tests."""
+        """Free names whose being defined or not the template asks about: `x is defined` tests and `x | default(...)` filters
+        (names the template assigns itself are not configuration)."""
+        stored = {n.name for n in self.tree.find_all(nodes.Name) if n.ctx == "store"}
         out = []
-        for n in self.tree.find_all(nodes.Test):
-            if n.name == "defined" and isinstance(n.node, nodes.Name) and n.node.name not in out:
+        for n in self.tree.find_all((nodes.Test, nodes.Filter)):
+            if ((isinstance(n, nodes.Test) and n.name in ("defined", "undefined")) or (isinstance(n, nodes.Filter) and n.name in ("default", "d"))) \
+                    and isinstance(n.node, nodes.Name) and n.node.name not in out and n.node.name not in stored:
                 out.append(n.node.name)
+            if isinstance(n, nodes.Filter) and n.name in ("default", "d"):
+                # x | default(y): whether y is defined matters as well
+                for a in n.args:
+                    if isinstance(a, nodes.Name) and a.name not in out and a.name not in stored:
+                        out.append(a.name)
         return out
 
     def free_variables(self):
@@ -143,6 +151,8 @@ class JinjaAI:
         if isinstance(n, nodes.List):
             return [self.expr(x) for x in n.items]
         if isinstance(n, nodes.Test):
+            if n.name == "undefined":
+                return self.expr(n.node) is UNDEF
             if n.name != "defined":
                 raise NotModelled(f"{self.name}:{n.lineno}: test {n.name} not modelled")
             return self.expr(n.node) is not UNDEF
@@ -258,7 +268,7 @@ class JinjaAI:
             raise NotModelled(f"{self.name}:{n.lineno}: call not modelled")
         if isinstance(n, nodes.Filter):
             v = self.expr(n.node)
-            if n.name == "default":
+            if n.name in ("default", "d"):
                 d = self.expr(n.args[0]) if n.args else ""
                 return d if v is UNDEF else v
             if n.name == "join":
